@@ -14,7 +14,10 @@ import Frp.Lemmas.Layers
    (2) a stack of lawful layers is lawful ......... stack_transparent, stack_prefix, stack_complete,
        and the two DIFFERENT stacks of the two ends are compatible in both directions
        .............................................. tunnel_down_prefix/complete, tunnel_up_prefix/complete
-   (3) limit.Writer / Reader ...................... writer_chunks, writer_chunk_bounds, writer_tokens, reader_le
+   (3) limit.Writer / Reader ...................... writer_chunks, writer_chunk_bounds, writer_tokens, reader_le;
+       against the limiter's admission check (`WaitN(n)` fails for n > burst on a finite limiter) and a
+       sink that can fail ........................... writer_wait_never_refused, writer_finite_complete,
+       writer_short_count, writer_requests_cover, writer_calls_concat, reader_drain
    (4) token bucket ............................... bucket_bound, bucket_window_bound, writer_requests_admissible
    (5) close propagation .......................... client_close, server_close_fixed, server_close_partial,
        server_close_witness (DEFECT, DESIGN §7 #2), http_close_*, closeNotify_witness (DEFECT #17),
@@ -263,6 +266,88 @@ theorem reader_le (b plen got : Nat) (h : got ≤ readerAsk b plen) :
   simp only [readerAsk] at h
   refine ⟨?_, rfl⟩
   split at h <;> omega
+
+/-! ### (3b) the same loops with the limiter's admission check and a sink / source that is not ideal
+
+  `Limit.write` mirrors `Writer.Write` INCLUDING `WaitN`'s refusal of `n > burst` (finite limiters, the
+  only kind frp builds) and the error / short count of the writer below; `Limit.readAll` drains a
+  stream through `Reader.Read` with buffers of any size. -/
+
+/-- no `WaitN` of the writer is ever refused: for every payload (any multiple of the burst), every
+    sink capacity and a finite limiter, `Write` never returns the limiter's error -/
+theorem writer_wait_never_refused (inf : Bool) (b : Nat) (hb : 0 < b) (room : Nat) (p : C01Bytes) :
+    (write inf b room p).err ≠ .wait := (write_spec inf b hb room p).noWait
+
+/-- a sink with room for `p`: `Write` returns `(len(p), nil)`, the sink is offered exactly `chunks b p`
+    and each `WaitN` asks for its chunk's length -/
+theorem writer_finite_complete (inf : Bool) (b : Nat) (hb : 0 < b) (room : Nat) (p : C01Bytes) (h : p.length ≤ room) :
+    write inf b room p =
+      { n := p.length, err := .none, reqs := (chunks b p).map List.length, offered := chunks b p,
+        room := room - p.length } := by
+  have hn := writerN_eq b hb p
+  simp only [writerN, chunks] at hn
+  simp only [write, writeAux_roomy inf b p.length room p h, chunks, hn]
+
+/-- a sink that fails after `room` bytes: the count returned is what the sink took, the error is nil
+    exactly when everything fitted, and the bytes the sink took are the first `n` bytes of `p` -/
+theorem writer_short_count (inf : Bool) (b : Nat) (hb : 0 < b) (room : Nat) (p : C01Bytes) :
+    (write inf b room p).n = min room p.length ∧
+    ((write inf b room p).err = .none ↔ p.length ≤ room) ∧
+    (write inf b room p).accepted = p.take (write inf b room p).n ∧
+    (write inf b room p).room = room - (write inf b room p).n :=
+  ⟨(write_spec inf b hb room p).n_eq, (write_spec inf b hb room p).ok_iff, write_accepted inf b hb room p,
+    (write_spec inf b hb room p).room_eq⟩
+
+/-- tokens: every `WaitN` asks for exactly the bytes of the chunk it precedes, 1..burst of them -/
+theorem writer_requests_cover (inf : Bool) (b : Nat) (hb : 0 < b) (room : Nat) (p : C01Bytes) :
+    (write inf b room p).reqs = (write inf b room p).offered.map List.length ∧
+    ∀ r ∈ (write inf b room p).reqs, 0 < r ∧ r ≤ b := by
+  have s := write_spec inf b hb room p
+  refine ⟨s.reqs, ?_⟩
+  intro r hr
+  rw [s.reqs] at hr
+  obtain ⟨c, hc, rfl⟩ := List.mem_map.mp hr
+  exact s.bounds c hc
+
+/-- a payload split over any number of `Write` calls: every call succeeds in full and the sink receives
+    the concatenation -/
+theorem writer_calls_concat (inf : Bool) (b : Nat) (hb : 0 < b) :
+    ∀ (ps : List C01Bytes) (room : Nat), ps.flatten.length ≤ room →
+      ((writeMany inf b room ps).map WOut.accepted).flatten = ps.flatten ∧
+      (writeMany inf b room ps).map (fun o => (o.n, o.err)) = ps.map (fun p => (p.length, WErr.none)) := by
+  intro ps
+  induction ps with
+  | nil => intro room _; exact ⟨rfl, rfl⟩
+  | cons p ps ih =>
+    intro room h
+    simp only [List.flatten_cons, List.length_append] at h
+    have hp : p.length ≤ room := by omega
+    have hw := writer_finite_complete inf b hb room p hp
+    have hacc := write_accepted inf b hb room p
+    obtain ⟨i1, i2⟩ := ih (room - p.length) (by omega)
+    simp only [writeMany, List.map_cons, List.flatten_cons, hacc]
+    rw [hw]
+    simp only [List.take_length]
+    exact ⟨by rw [i1], by rw [i2]⟩
+
+/-- draining a stream through `Reader.Read` with buffers of ANY size (larger than the burst included)
+    over a source that hands out at most `per` bytes per call: the reads concatenate to the stream, each
+    is at most `min(len(p), burst)` bytes, `WaitN` is asked for exactly the bytes returned and is never
+    refused, and the drain ends with end-of-stream -/
+theorem reader_drain (inf : Bool) (b plen per : Nat) (hb : 0 < b) (hp : 0 < plen) (hper : 0 < per) (src : C01Bytes) :
+    ((readAll inf b plen per (src.length + 1) src).map (·.got)).flatten = src ∧
+    (∀ r ∈ readAll inf b plen per (src.length + 1) src, ROutOk b plen r) ∧
+    (∃ pre, readAll inf b plen per (src.length + 1) src = pre ++ [{ got := [], req := none, err := .eof }] ∧
+      ∀ r ∈ pre, r.err = .none) :=
+  readAll_spec inf b plen per hb hp hper (src.length + 1) src (Nat.lt_succ_self _)
+
+example : write false 3 100 [1, 2, 3, 4, 5, 6, 7, 8] =
+    { n := 8, err := .none, reqs := [3, 3, 2], offered := [[1, 2, 3], [4, 5, 6], [7, 8]], room := 92 } := by decide
+example : write false 3 4 [1, 2, 3, 4, 5, 6, 7, 8] =
+    { n := 4, err := .sink, reqs := [3, 3], offered := [[1, 2, 3], [4, 5, 6]], room := 0 } := by decide
+example : (readAll false 3 8 2 6 [1, 2, 3, 4, 5]).map (·.got) = [[1, 2], [3, 4], [5], []] := by decide
+/-- the check `WaitN` performs is not vacuous: a request of burst + 1 is refused by a finite limiter -/
+example : waitOk false 3 4 = false ∧ waitOk true 3 4 = true := by decide
 
 /-! ## (4) token bucket -/
 
@@ -613,6 +698,104 @@ theorem holdsOn_sound (b : Nat) (p : C01Bytes) (got : List C01Bytes) :
 /-- the model's own output satisfies the predicate (the theorem the predicate stands for) -/
 theorem model_holdsOn (b : Nat) (hb : 0 < b) (p : C01Bytes) : writerHoldsOn b p (chunks b p) = true :=
   (holdsOn_sound b p _).mpr ⟨writer_chunks b hb p, writer_chunk_bounds b hb p⟩
+
+/-- one recorded `limit.Writer.Write` on the real code: `len(p)`, the count and whether `err == nil`, the sizes of
+    the writes the sink saw, and (when the harness could observe them) the tokens each `WaitN` took -/
+structure WObs where
+  len : Nat
+  n : Nat
+  ok : Bool
+  offered : List Nat
+  reqs : Option (List Nat)
+  deriving DecidableEq, Repr
+
+/-- tokens cover bytes: the i-th `WaitN` took at least the size of the i-th write it admitted -/
+def tokensCover : List Nat → List Nat → Bool
+  | _, [] => true
+  | [], _ :: _ => false
+  | r :: rs, c :: cs => decide (c ≤ r) && tokensCover rs cs
+
+/-- what C01 demands of one `Write` over a sink with `room` bytes left: if `p` fits it is written in full
+    without error; if not, an error is reported and the count does not exceed what the sink took; the limiter
+    was asked for at least the bytes that went through -/
+def wObsOk (room : Nat) (o : WObs) : Bool :=
+  (if o.len ≤ room then o.ok && o.n == o.len && o.offered.sum == o.len else !o.ok && decide (o.n ≤ room)) &&
+  (match o.reqs with
+   | some rs => tokensCover rs o.offered
+   | none => true)
+
+/-- successive calls on one writer (the sink's room shrinks by what it took) -/
+def wlimHoldsOn : Nat → List WObs → Bool
+  | _, [] => true
+  | room, o :: rest => wObsOk room o && wlimHoldsOn (room - o.n) rest
+
+def WObs.ofModel (p : C01Bytes) (o : WOut) : WObs :=
+  { len := p.length, n := o.n, ok := o.err == .none, offered := o.offered.map List.length, reqs := some o.reqs }
+
+theorem tokensCover_self : ∀ (l : List Nat), tokensCover l l = true
+  | [] => rfl
+  | a :: l => by simp [tokensCover, tokensCover_self l]
+
+/-- the model's own `Write` satisfies the predicate, for every burst, sink capacity and payload -/
+theorem wlim_model_holdsOn (inf : Bool) (b : Nat) (hb : 0 < b) (room : Nat) (p : C01Bytes) :
+    wObsOk room (WObs.ofModel p (write inf b room p)) = true := by
+  have hc := writer_requests_cover inf b hb room p
+  by_cases h : p.length ≤ room
+  · have hw := writer_finite_complete inf b hb room p h
+    have hn := writerN_eq b hb p
+    simp only [writerN] at hn
+    simp [wObsOk, WObs.ofModel, hw, h, hn, tokensCover_self]
+  · have hs := writer_short_count inf b hb room p
+    have hne : ((write inf b room p).err == WErr.none) = false := by
+      cases he : (write inf b room p).err with
+      | none => exact absurd (hs.2.1.mp he) h
+      | wait => rfl
+      | sink => rfl
+    have hle : (write inf b room p).n ≤ room := by rw [hs.1]; exact Nat.min_le_left _ _
+    simp [wObsOk, WObs.ofModel, h, hne, hle, hc.1, tokensCover_self]
+
+/-- one recorded drain through the real `limit.Reader`: bytes per `Read`, tokens per `Read` when observed -/
+def rlimHoldsOn (b plen srcLen : Nat) (ns : List Nat) (reqs : Option (List Nat)) (eof cat : Bool) : Bool :=
+  eof && cat && ns.sum == srcLen && ns.all (fun n => decide (n ≤ min plen b)) &&
+  (match reqs with
+   | some rs => tokensCover rs ns
+   | none => true)
+
+theorem tokensCover_map {α : Type} (f g : α → Nat) : ∀ (l : List α), (∀ x ∈ l, g x ≤ f x) →
+    tokensCover (l.map f) (l.map g) = true
+  | [], _ => rfl
+  | a :: l, h => by
+    simp only [List.map_cons, tokensCover, Bool.and_eq_true, decide_eq_true_eq]
+    exact ⟨h a (List.mem_cons_self ..), tokensCover_map f g l (fun x hx => h x (List.mem_cons_of_mem _ hx))⟩
+
+/-- the model's own drain satisfies the predicate, for every burst, buffer size, segment size and stream -/
+theorem rlim_model_holdsOn (inf : Bool) (b plen per : Nat) (hb : 0 < b) (hp : 0 < plen) (hper : 0 < per) (src : C01Bytes) :
+    rlimHoldsOn b plen src.length ((readAll inf b plen per (src.length + 1) src).map (·.got.length))
+      (some ((readAll inf b plen per (src.length + 1) src).map (·.req.getD 0)))
+      ((readAll inf b plen per (src.length + 1) src).getLast?.map (·.err) == some RErr.eof) true = true := by
+  obtain ⟨h1, h2, pre, h3, _⟩ := reader_drain inf b plen per hb hp hper src
+  generalize readAll inf b plen per (src.length + 1) src = rs at h1 h2 h3
+  have hsum : (rs.map (·.got.length)).sum = src.length := by
+    have := sum_map_length_flatten (rs.map (·.got))
+    rw [List.map_map, h1] at this
+    exact this
+  have hall : ∀ n ∈ rs.map (·.got.length), n ≤ min plen b := by
+    intro n hn
+    obtain ⟨r, hr, rfl⟩ := List.mem_map.mp hn
+    exact (h2 r hr).2.1
+  have hcov : tokensCover (rs.map (·.req.getD 0)) (rs.map (·.got.length)) = true := by
+    apply tokensCover_map
+    intro r hr
+    obtain ⟨hw, _, hn, he⟩ := h2 r hr
+    cases hr' : r.err with
+    | none => rw [(hn hr').1]; exact Nat.le_refl _
+    | eof => rw [(he hr').1]; exact Nat.zero_le _
+    | wait => exact absurd hr' hw
+  have hlast : (rs.getLast?.map (·.err) == some RErr.eof) = true := by
+    rw [h3]; simp
+  simp only [rlimHoldsOn, hlast, hsum, hcov, Bool.true_and, Bool.and_true, beq_self_eq_true, List.all_eq_true,
+    decide_eq_true_eq]
+  exact hall
 
 /-- what an end-to-end transfer observed -/
 structure Obs where
